@@ -11,7 +11,7 @@ import (
 func init() {
 	register("C05", &ruleSet{
 		run:    runC05,
-		floors: map[string]int{"O1": 1, "O2": 1, "O3": 4, "O4": 4, "O5": 2},
+		floors: map[string]int{"O1": 1, "O2": 1, "O3": 4, "O4": 4, "O5": 1},
 		explain: "Decides, from the SSA of every path, that (O1) each constructor of a limiter owning a limit and a strategy passes " +
 			"strategy.SetLimit(limit.EstimatedLimit()) on every path that returns the limiter; (O2) every call of the limit's OnSample on such a limiter " +
 			"is followed on every path, before return and with the limiter's exclusive mutex held throughout, by SetLimit(EstimatedLimit()) on the same " +
